@@ -1,7 +1,7 @@
 (* C04 - Checked join never escapes, replaces or re-roots the base path. *)
 From Coq Require Import List NArith Bool.
 Import ListNotations.
-From TP Require Import Core CoreProofs Path Unix Win Spec UnixProofs WinProofs C04Proofs.
+From TP Require Import Core CoreProofs Path Unix Win Spec UnixProofs WinProofs C02Proofs C04Proofs GenJoin WinSimple.
 
 (* the decision: a checked push either fails, leaving the base byte-for-byte unchanged, or
    succeeds with exactly the unchecked join; which of the two is the scan over the components
@@ -43,10 +43,37 @@ Theorem C04_unix_added : forall p : list N, no_root_p p ->
 Proof. exact added_spec. Qed.
 Print Assumptions C04_unix_contains.
 Print Assumptions C04_unix_added.
-(* C04_windows_contains_partial: the Windows containment statement (with the implicit root after a bare
-   non-disk prefix and the verbatim fold) is not proved; the Windows success/failure decision, the error
-   kind and "failure leaves the base unchanged / success equals the unchecked join" are checked against
-   scan_spec over the grammar specification wspec by oracle_c04 on every explored (base, p) pair. *)
+(* Windows: the scan runs over the grammar specification wspec p, and succeeds exactly when p has no
+   prefix, no root, no normal component with a forbidden byte, and no ".." outnumbering the normal
+   components before it *)
+Theorem C04_windows_decision_spec : forall base p : list N,
+  w_push_checked base p =
+  match w_scan (wspec p) O with Some e => (base, Some e) | None => (w_push base p, None) end.
+Proof. intros base p. rewrite w_push_checked_decision, w_components_wspec. reflexivity. Qed.
+Theorem C04_windows_success_iff : forall (cs : list wcomp) (d : nat),
+  w_scan cs d = None <-> (forallb w_plain_comp cs = true /\ forallb wc_is_valid cs = true /\ w_never_climbs cs d).
+Proof. exact w_scan_none_iff. Qed.
+(* Windows containment for the bases without UNC / verbatim / device prefix: a prefix-free base not
+   starting with two separators (noprefix), or a drive prefix X: followed by anything non-empty:
+   on success the result's components begin with exactly the base's, followed by p's components minus
+   a leading "." *)
+Theorem C04_windows_contains_plain : forall base p : list N, noprefix base = true -> base <> [] -> p <> [] ->
+  w_scan (wspec p) O = None ->
+  w_push_checked base p = (w_push base p, None) /\ wspec (w_push base p) = wspec base ++ map WC (gadded (wsep true) p).
+Proof. exact w_push_checked_contains_plain. Qed.
+Theorem C04_windows_contains_disk : forall (d : N) (ra p : list N), s_alpha d = true -> ra <> [] -> p <> [] ->
+  w_scan (wspec p) O = None ->
+  w_push_checked (d :: 58 :: ra) p = (w_push (d :: 58 :: ra) p, None) /\
+  wspec (w_push (d :: 58 :: ra) p) = wspec (d :: 58 :: ra) ++ map WC (gadded (wsep true) p).
+Proof. exact w_push_checked_contains_disk. Qed.
+Print Assumptions C04_windows_decision_spec.
+Print Assumptions C04_windows_success_iff.
+Print Assumptions C04_windows_contains_plain.
+Print Assumptions C04_windows_contains_disk.
+(* C04_windows_contains_partial: containment for bases with a UNC / verbatim / device-namespace prefix
+   (implicit root after a bare prefix, verbatim fold) is not proved; it is decided on every explored
+   (base, p) pair by oracle_c04 (decision, error kind) and oracle_c10 (components of the join). The base
+   of exactly two separators is the known finding D10. *)
 
 Example C04_example :
   u_push_checked [47;115;114;118] [97;47;46;46;47;46;46;47;101] = ([47;115;114;118], Some ETraversal)
